@@ -19,6 +19,16 @@ RULE = 'case = (program, builder) with all histories run inside; non-trivial = e
 ASSUMPTIONS = ['dill round trip is left to C17; calendar correctness of the serial is C20 (here the serial is computed by plain day arithmetic for 2026-2027 dates)']
 
 T0 = (2026, 3, 14, 9, 26, 53)
+T1 = (2026, 12, 31, 23, 59, 58, 600000)      # sub-second clock next to midnight and to the end of the year: 's' gives 23:59:59.6, then 00:00:00.6
+
+
+def clock_ok(got, want, now):
+    """NOW/TODAY against the harness clock: exact for a whole-second clock, within one second when the clock shows
+    a fraction of a second (truncating and rounding implementations are both right)"""
+    if got[0] != 'n':
+        return False
+    tol = 1e-9 if not now.microsecond else 1.0 / 86400 + 1e-9
+    return abs(got[1] - want) <= tol
 VOL = {'NOW': 'NOW()', 'TODAY': 'TODAY()', 'RAND': 'RAND()', 'RB': 'RANDBETWEEN(1,1000)'}
 
 
@@ -43,7 +53,7 @@ def serial(now, kind):
     days = (now.date() - _dt.date(1899, 12, 30)).days
     if kind == 'TODAY':
         return float(days)
-    return days + (now.hour * 3600 + now.minute * 60 + now.second) / 86400.0
+    return days + (now.hour * 3600 + now.minute * 60 + now.second + now.microsecond / 1e6) / 86400.0
 
 
 def histories(maxlen):
@@ -123,6 +133,19 @@ def cases(tier):
     for i in range(len(RB_ARGS)):
         for b in ('parser', 'cell'):
             yield ['rbargs', i, b]
+    # every way of obtaining the executable composed: origin > up to two transformations | use
+    for kind in VOL:
+        for origin in ('dict', 'file'):
+            for n in (0, 1, 2):
+                for tr in itertools.product(TRANSFORMS, repeat=n):
+                    for use in USES:
+                        if n == 0 and use in ('calculate', 'compile-up', 'compile-down', 'compile-unrelated'):
+                            continue            # already among the plain builders above
+                        yield ['workbook', kind, 'chain:' + '>'.join((origin,) + tr) + '|' + use]
+
+
+TRANSFORMS = ('deepcopy', 'json', 'dill', 'calc')
+USES = ('calculate', 'compile-up', 'compile-down', 'compile-unrelated', 'compile-up+fcopy', 'compile-down+fdill')
 
 
 def get_prog(spec):
@@ -176,7 +199,7 @@ def run_formula(case):
                 if kind in ('NOW', 'TODAY'):
                     vv = serial(Clock.now, kind)
                     exp = expected(p, vv)
-                    if exp is not None and not (got == exp or close(got, exp, 1e-9)):
+                    if exp is not None and not (got == exp or close(got, exp, 1e-11)):      # one second is 2.5E-10 of a 2026 serial
                         fails.append(Fail('stale-or-wrong-clock', got=got, exp=exp, hist=h, clock=str(Clock.now), **desc))
                         break
                 elif kind == 'RAND':
@@ -240,6 +263,16 @@ def run_workbook(case):
         d["'[b.xlsx]'!VOLNAME"] = '=' + VOL[kind]
         d[P + 'A1'] = "='[b.xlsx]'!VOLNAME"
     A1, B1, C1, D1, K1, K2, E1, F1 = (P + c for c in ('A1', 'B1', 'C1', 'D1', 'K1', 'K2', 'E1', 'F1'))
+    chain, use = None, None
+    rng_seam = 'dill' not in builder          # after dill.loads the library draws from a private copy of the random state
+    if not rng_seam:
+        np.random.seed(4242)                  # the private copy is taken from this state: deterministic all the same
+    draws = []
+    if builder.startswith('chain:'):
+        chain, use = builder[6:].split('|')
+        chain = chain.split('>')
+        builder = chain[0]
+        chain = chain[1:]
     try:
         if builder in ('file', 'vname-file'):
             import openpyxl
@@ -262,14 +295,32 @@ def run_workbook(case):
             m = copy.deepcopy(m)
         if builder in ('json', 'vname-json'):
             m = formulas.ExcelModel().from_dict(json.loads(json.dumps(m.to_dict())))
+        for t in chain or ():
+            if t == 'deepcopy':
+                m = copy.deepcopy(m)
+            elif t == 'json':
+                m = formulas.ExcelModel().from_dict(json.loads(json.dumps(m.to_dict())))
+            elif t == 'dill':
+                import dill
+                m = dill.loads(dill.dumps(m))
+            else:
+                m.calculate()
+        fpost = lambda f: f
+        if use is not None:
+            builder = use.split('+')[0]
+            if use.endswith('+fcopy'):
+                fpost = copy.deepcopy
+            elif use.endswith('+fdill'):
+                import dill
+                fpost = lambda f: dill.loads(dill.dumps(f))
         if builder == 'compile-up':           # volatile upstream of the outputs, input unrelated constant
-            f = m.compile([K1], [A1, B1, C1, D1])
+            f = fpost(m.compile([K1], [A1, B1, C1, D1]))
             ev = lambda: dict(zip(['A1', 'B1', 'C1', 'D1'], f(5)))
         elif builder == 'compile-down':       # output depends on the input and on the volatile cell
-            f = m.compile([K1], [E1, A1])
+            f = fpost(m.compile([K1], [E1, A1]))
             ev = lambda: dict(zip(['E1', 'A1'], f(5)))
         elif builder == 'compile-unrelated':  # volatile cell not connected to the requested output at all; a second output is volatile inside an IF
-            f = m.compile([K1], [K2, F1])
+            f = fpost(m.compile([K1], [K2, F1]))
             ev = lambda: dict(zip(['K2', 'F1'], f(5)))
         else:
             ev = lambda: {k[len(P):]: v for k, v in m.calculate().items() if isinstance(k, str) and k.startswith(P)}
@@ -278,8 +329,8 @@ def run_workbook(case):
 
     def val(x):
         return classify(np.asarray(getattr(x, 'value', x), object).ravel()[0])
-    for h in histories(4):
-        Clock.now = _dt.datetime(*T0)
+    for start, h in [(T0, h) for h in histories(4)] + ([(T1, h) for h in histories(4)] if kind in ('NOW', 'TODAY') else []):
+        Clock.now = _dt.datetime(*start)
         np.random.seed(777)
         twin = np.random.RandomState(777)
         prev = None
@@ -301,9 +352,11 @@ def run_workbook(case):
                 if a is not None:
                     if kind in ('NOW', 'TODAY'):
                         e = N(serial(Clock.now, kind))
-                        if not close(a, e, 1e-9):
-                            fails.append(Fail('stale-or-wrong-clock', got=a, exp=e, hist=h, cell='A1', **desc))
+                        if not clock_ok(a, e[1], Clock.now):
+                            fails.append(Fail('stale-or-wrong-clock', got=a, exp=e, hist=h, cell='A1', clock=str(Clock.now), **desc))
                             break
+                    elif not rng_seam:
+                        draws.append(a)
                     elif np.random.get_state()[2] == pos0:
                         fails.append(Fail('frozen-or-wrong-draw', got='no draw consumed, A1=%s' % (a,), exp='a fresh draw', hist=h, cell='A1', **desc))
                         break
@@ -324,9 +377,11 @@ def run_workbook(case):
                     f1 = r['F1']
                     if kind in ('NOW', 'TODAY'):
                         e = N(serial(Clock.now, kind) + 5)
-                        if not close(f1, e, 1e-9):
-                            fails.append(Fail('stale-or-wrong-clock', got=f1, exp=e, hist=h, cell='F1', **desc))
+                        if not clock_ok(f1, e[1], Clock.now):
+                            fails.append(Fail('stale-or-wrong-clock', got=f1, exp=e, hist=h, cell='F1', clock=str(Clock.now), **desc))
                             break
+                    elif not rng_seam:
+                        draws.append(f1)
                     elif prev is not None and prev.get('F1') == f1:
                         fails.append(Fail('frozen-or-wrong-draw', got='F1=%s twice' % (f1,), exp='a fresh draw', hist=h, cell='F1', **desc))
                         break
@@ -340,6 +395,8 @@ def run_workbook(case):
                 break
         if fails:
             break
+    if not rng_seam and kind in ('RAND', 'RB') and not fails and len(draws) > 8 and len(set(draws)) < 3:
+        fails.append(Fail('frozen-or-wrong-draw', got='%d evaluations gave %d distinct value(s)' % (len(draws), len(set(draws))), exp='fresh draws', hist='all', cell='A1/F1', **desc))
     return result(ex, sorted(oc), fails[:3])
 
 
@@ -390,7 +447,35 @@ def run_rbargs(case):
     return result(40, ['rbargs:%s' % ('num' if isinstance(a, int) else a)], fails)
 
 
+def _isolated(fn, case):
+    """run fn(case) in a forked child: dill.loads() of a model rebinds module-level objects of the library in the
+    loading process (the function table then draws from a private copy of the random state), which must not leak
+    into the cases that follow in this worker."""
+    import os, pickle
+    r, w = os.pipe()
+    pid = os.fork()
+    if pid == 0:
+        code = 0
+        try:
+            os.close(r)
+            data = pickle.dumps(fn(case))
+            with os.fdopen(w, 'wb') as f:
+                f.write(data)
+        except BaseException:
+            code = 1
+        os._exit(code)
+    os.close(w)
+    with os.fdopen(r, 'rb') as f:
+        data = f.read()
+    os.waitpid(pid, 0)
+    if not data:
+        return result(1, ['child-died'], [Fail('escape', got='isolated child died', exp='a result', builder=str(case[2]), kind=str(case[1]))])
+    return pickle.loads(data)
+
+
 def run_case(case):
+    if case[0] == 'workbook' and 'dill' in case[2]:
+        return _isolated(run_workbook, case)
     if case[0] == 'rbargs':
         return run_rbargs(case)
     return run_formula(case) if case[0] == 'formula' else run_workbook(case)
